@@ -389,6 +389,9 @@ func (e *Exec) streamRun(fr *Frame, st *BState, x *ssa.Call) SV {
 		if strings.HasPrefix(k, "$calls.") || strings.HasPrefix(k, "$callsAtMeta.") || k == "$outAtMeta" {
 			st.ghost[k] = intSV(e.fresh("stream."+k, SInt))
 		}
+		if _, ok := lastCallGhost(k); ok {
+			st.ghost[k] = e.freshSV(ghostTypes[k], "stream."+k, st.reach, false)
+		}
 	}
 	if keys["$frontier"] {
 		old := e.frontier(st)
